@@ -1,1 +1,68 @@
-fn main(){}
+//! lv-node: dispatcher. One module per property; each exposes `pub fn run(ctx: &mut Ctx)`.
+use lv_common::{Ctx, parse_args};
+
+mod c09;
+mod c10;
+mod c16;
+mod c17;
+mod c18;
+mod c19;
+mod c22;
+mod c23;
+mod c24;
+mod c25;
+mod c26;
+mod c27;
+mod c28;
+mod c29;
+mod c30;
+mod c31;
+mod c32;
+mod c33;
+mod c34;
+mod c35;
+mod c36;
+mod c37;
+mod c38;
+mod c39;
+mod c40;
+mod c41;
+
+fn main() {
+    let args = parse_args();
+    let level = if args.prop == "C22" { "fault_enumeration" } else { "exploration" };
+    let mut ctx = Ctx::from_args(&args, level);
+    match args.prop.as_str() {
+        "C09" => c09::run(&mut ctx),
+        "C10" => c10::run(&mut ctx),
+        "C16" => c16::run(&mut ctx),
+        "C17" => c17::run(&mut ctx),
+        "C18" => c18::run(&mut ctx),
+        "C19" | "C20" | "C21" => c19::run(&mut ctx),
+        "C22" => c22::run(&mut ctx),
+        "C23" => c23::run(&mut ctx),
+        "C24" => c24::run(&mut ctx),
+        "C25" => c25::run(&mut ctx),
+        "C26" => c26::run(&mut ctx),
+        "C27" => c27::run(&mut ctx),
+        "C28" => c28::run(&mut ctx),
+        "C29" => c29::run(&mut ctx),
+        "C30" => c30::run(&mut ctx),
+        "C31" => c31::run(&mut ctx),
+        "C32" => c32::run(&mut ctx),
+        "C33" => c33::run(&mut ctx),
+        "C34" => c34::run(&mut ctx),
+        "C35" => c35::run(&mut ctx),
+        "C36" => c36::run(&mut ctx),
+        "C37" => c37::run(&mut ctx),
+        "C38" => c38::run(&mut ctx),
+        "C39" => c39::run(&mut ctx),
+        "C40" => c40::run(&mut ctx),
+        "C41" => c41::run(&mut ctx),
+        other => {
+            eprintln!("lv-node: unknown property {other}");
+            std::process::exit(2);
+        }
+    }
+    ctx.finish();
+}
